@@ -176,12 +176,71 @@ def run(ctx):
         n_methods += 1
         _check_method(ctx, model, E, name, mem, node, order, accepted_z)
     ctx.floor("Expression operator methods", n_methods, 24)
+    _admission(ctx, model, E)
     ctx.extra["Z_tagged_identities_accepted"] = accepted_z
     _unary(ctx, model, E)
     _overrides(ctx, model)
     _ordering(ctx, model, E)
     _constructors(ctx, model, E)
     _quotient_shortcut(ctx, model)
+
+
+def _admission(ctx, model, E):
+    """The property's operands include the booleans (True is listed among the
+    special operands), and `x - True`, `x * True`, `x ** True` ... build trees.
+    Every operator method must admit what its siblings admit: the gate of each
+    is read (the predicate applied to `other` before anything else), and the
+    predicates are classified by reading their bodies -- does the predicate
+    reject the classes in _BOOL_CLASSES?"""
+    rejects_bool = {}
+    for g in GATES:
+        key = f"{PRIM}:{g}"
+        if key not in model.functions:
+            continue
+        _, fn = model.functions[key]
+        rejects_bool[g] = any(isinstance(n_, ast.Name) and n_.id == "_BOOL_CLASSES"
+                              for n_ in ast.walk(fn))
+    gates = {}
+    for name in GENERAL:
+        mem = E.members.get(name) or model.lookup(E, name)
+        if mem is None or mem.kind != "func":
+            continue
+        used = [c.func.id for st in mem.node.body[:2] for c in ast.walk(st)
+                if isinstance(c, ast.Call) and isinstance(c.func, ast.Name)
+                and c.func.id in GATES and len(c.args) == 1
+                and isinstance(c.args[0], ast.Name)
+                and c.args[0].id == mem.node.args.args[1].arg]
+        if len(used) != 1:
+            raise AnalysisError(f"Expression.{name}: operand gate not found at "
+                                "the head of the method")
+        gates[name] = used[0]
+    ctx.floor("operator methods with an operand gate", len(gates), 20)
+    admitting = [m for m, g in gates.items() if rejects_bool.get(g) is False]
+    if len(admitting) < len(gates) // 2:
+        raise AnalysisError("most operator methods refuse boolean operands: "
+                            "the sibling-agreement rule has lost its majority")
+    for name, g in sorted(gates.items()):
+        ok = rejects_bool.get(g) is False
+        ctx.ob(f"S/Expression.{name}/admits-boolean-operands", ok,
+               E.module.loc(E.members[name].node if name in E.members
+                            else model.lookup(E, name).node),
+               f"gate {g} admits every operand kind its siblings admit" if ok
+               else f"Expression.{name} gates on {g}, which refuses bool: "
+               f"'{'True' if name.startswith('__r') else 'x'} "
+               f"{_OPSYM.get(name, '?')} "
+               f"{'x' if name.startswith('__r') else 'True'}' raises although "
+               f"{len(admitting)} of the {len(gates)} operator methods (x - True, "
+               "x * True, x ** True, ...) accept a boolean operand and the "
+               "plain computation is defined")
+
+
+_OPSYM = {"__add__": "+", "__radd__": "+", "__sub__": "-", "__rsub__": "-",
+          "__mul__": "*", "__rmul__": "*", "__truediv__": "/",
+          "__rtruediv__": "/", "__floordiv__": "//", "__rfloordiv__": "//",
+          "__mod__": "%", "__rmod__": "%", "__pow__": "**", "__rpow__": "**",
+          "__lshift__": "<<", "__rlshift__": "<<", "__rshift__": ">>",
+          "__rrshift__": ">>", "__or__": "|", "__ror__": "|", "__xor__": "^",
+          "__rxor__": "^", "__and__": "&", "__rand__": "&"}
 
 
 def _check_method(ctx, model, cls, name, mem, node, order, accepted_z,
